@@ -118,6 +118,14 @@ def build(world, strata, prop, quick, rnd):
             lat = rnd.choice([rnd.uniform(-79.9, 83.9), rnd.uniform(-79.9, 83.9), rnd.uniform(-1e-6, 1e-6), 83.9999, -79.9999, rnd.uniform(-10, 10),
                               84.0, -80.0])          # the limits of the band themselves are inside the band
             dl = rnd.choice([rnd.uniform(-30, 30), rnd.uniform(-30, 30), rnd.uniform(-3, 3), rnd.uniform(-1e-7, 1e-7), 29.9999, -29.9999])
+            if k % 9 == 4:
+                # every ninth event: the first or the last zone of the system with the position beyond the +-180 meridian
+                zlast = max(1, min(60, int((180 - cm1_) // zw_) + 1))
+                zone = 1 if (k // 9) % 2 == 0 else zlast
+                cmz = zone * zw_ + cm1_ - zw_
+                room = (cmz + 180.0) if zone == 1 else (180.0 - cmz)
+                if 0 <= room < 29 and -180 <= cmz <= 180:
+                    dl = (-1 if zone == 1 else 1) * (room + rnd.uniform(0.01, 29.5 - room))
             lonv = cmz + dl
             if not (-180 <= lonv < 180):
                 lonv = (lonv + 180.0) % 360.0 - 180.0      # an explicit zone on the far side of the +-180 meridian
